@@ -28,18 +28,24 @@ static inline uint8_t enc(int sym, uint64_t pos) { return (uint8_t)(sym | ((pos 
 static const uint8_t POISON = 0xFF;
 
 // runs [[sym,delta,len],...] of n bytes found at positions at, at+1, ...
+// No correct content has more than a few dozen runs (2 per write request + the initial layout); arbitrary bytes
+// (uninitialised memory that reached a file) would give thousands: after MAXRUNS runs the rest is logged as one
+// run of poison [7,31,rest], which keeps the length and equals no expectation.
+static const int MAXRUNS = 100;
 static std::string runs(const uint8_t* p, size_t n, uint64_t at) {
     vt::Arr a;
-    int cs = -1, cd = -1; uint64_t cl = 0;
+    int cs = -1, cd = -1, nr = 0; uint64_t cl = 0;
+    auto emit = [&](int s, int d, uint64_t l) { a.raw("[" + std::to_string(s) + "," + std::to_string(d) + "," + std::to_string(l) + "]"); nr++; };
     for (size_t i = 0; i < n; i++) {
         int s, d; uint8_t b = p[i];
         if (b == 0) { s = 0; d = 0; }
         else { s = b & 7; int tag = b >> 3; d = (tag == 31) ? 31 : (int)((tag + 31 - (at + i) % 31) % 31); }
         if (s == cs && d == cd) { cl++; continue; }
-        if (cl) a.raw("[" + std::to_string(cs) + "," + std::to_string(cd) + "," + std::to_string(cl) + "]");
+        if (cl) emit(cs, cd, cl);
+        if (nr >= MAXRUNS) { emit(7, 31, n - i); return a.str(); }
         cs = s; cd = d; cl = 1;
     }
-    if (cl) a.raw("[" + std::to_string(cs) + "," + std::to_string(cd) + "," + std::to_string(cl) + "]");
+    if (cl) emit(cs, cd, cl);
     return a.str();
 }
 
@@ -251,10 +257,17 @@ static uint32_t pick_mis(uint64_t A) {          // a non-zero offset from an ali
     if (A <= 1) return 0;
     switch (rng->below(3)) { case 0: return 1; case 1: return (uint32_t)(A / 2); default: return (uint32_t)(A - 1); }
 }
-// value near a multiple of A within [0, limit)
+// value near a multiple of A (or near one of g_bounds, the sub-file boundaries of a variable-size composite) within [0, limit)
+static std::vector<uint64_t> g_bounds;
 static uint64_t near_boundary(uint64_t A, uint64_t limit) {
     if (limit == 0) return 0;
     if (rng->coin(25)) return rng->below(limit);
+    if (!g_bounds.empty()) {
+        int64_t v = (int64_t)g_bounds[rng->below(g_bounds.size())] + (int64_t)rng->below(5) - 2;
+        if (v < 0) v = 0;
+        if ((uint64_t)v >= limit) v = limit - 1;
+        return v;
+    }
     uint64_t blocks = limit / A + 1;
     int64_t v = (int64_t)(rng->below(blocks + 1) * A) + (int64_t)rng->below(5) - 2;
     if (v < 0) v = 0;
@@ -283,7 +296,11 @@ static void random_op(Op& op, int idx, uint64_t cursize, uint64_t A, uint64_t ma
     if (rng->coin(5)) count = 0;
     else if (rng->coin(30)) count = rng->below(maxlen + 1);
     else { count = near_boundary(A, maxlen + 1); }
-    if (rng->coin(35)) { int64_t c = (int64_t)(rng->below(maxlen / A + 1) * A) - (int64_t)(op.off % A) + (int64_t)rng->below(3) - 1; if (c >= 0 && (uint64_t)c <= maxlen) count = c; }  // end near a boundary
+    if (rng->coin(35)) {     // end near a boundary
+        int64_t e = g_bounds.empty() ? (int64_t)((op.off / A + rng->below(maxlen / A + 1)) * A) : (int64_t)g_bounds[rng->below(g_bounds.size())];
+        int64_t c = e - (int64_t)op.off + (int64_t)rng->below(3) - 1;
+        if (c >= 0 && (uint64_t)c <= maxlen) count = c;
+    }
     if (rng->coin(45)) { op.variant = 0; op.lens.assign(1, (uint32_t)count); }
     else { op.variant = 1 + rng->below(4); split(count, 1 + rng->below(maxelems), A, op.lens); }
     op.misoff.assign(op.lens.size(), 0);
@@ -325,7 +342,10 @@ int main(int argc, char** argv) {
             }
             segs.push_back({(uint32_t)len});
             for (auto& sg : segs) for (int mis = 0; mis <= (am ? (int)sg.size() : 0); mis++) {
-                if (A == 4 && !thorough && (s0 + off + len + sg[0] + mis) % 3) continue;     // quick: a third of A = 4
+                // sampling of the vectored scope: quick a third (A = 2) / an eighth (A = 4); thorough all (A = 2), half (A = 4), 1/32 (A = 8)
+                uint64_t hsh = (s0 * 131 + off * 31 + len * 7 + sg[0] * 3 + sg.size() + mis + w) ;
+                uint64_t den = thorough ? (A == 8 ? 32 : A == 4 ? 2 : 1) : (A == 2 ? 3 : 8);
+                if (hsh % den) continue;
                 run_aligned(A, am, alloc0, s0, [&](Op& op, int idx, uint64_t cur) {
                     if (idx == 0) { op.write = w; op.variant = 1 + (int)((s0 + off + len + sg[0]) % 4); op.off = off; op.lens = sg;
                                     op.misoff.assign(sg.size(), 0); if (mis) op.misoff[mis - 1] = pick_mis(A); op.sym = 2; return true; }
@@ -340,8 +360,8 @@ int main(int argc, char** argv) {
         std::vector<Comp> comps;
         for (uint64_t u = 1; u <= 5; u++) for (uint64_t n = 1; n <= 3; n++) { Comp c; c.kind = 0; c.unit = u; c.n = n; comps.push_back(c); }
         for (int k = 1; k <= 3; k++) {
-            int total = 1; for (int i = 0; i < k; i++) total *= 4;
-            for (int code = 0; code < total; code++) { Comp c; c.kind = 1; int x = code; for (int i = 0; i < k; i++) { c.sizes.push_back(1 + x % 4); x /= 4; } comps.push_back(c); }
+            int ms = thorough ? 4 : 3, total = 1; for (int i = 0; i < k; i++) total *= ms;
+            for (int code = 0; code < total; code++) { Comp c; c.kind = 1; int x = code; for (int i = 0; i < k; i++) { c.sizes.push_back(1 + x % ms); x /= ms; } comps.push_back(c); }
         }
         for (uint64_t st : {1, 2, 4}) for (uint64_t n = 1; n <= 3; n++) for (uint64_t rows = 1; rows <= 2; rows++) { Comp c; c.kind = 2; c.st = st; c.n = n; c.rows = rows; comps.push_back(c); }
         for (auto& c : comps) {
@@ -378,6 +398,8 @@ int main(int argc, char** argv) {
             uint64_t g;
             if (c.kind == 0) { c.n = 1 + r.below(5); c.unit = r.coin(50) ? (uint64_t)1 << r.below(14) : 1 + r.below(5000); g = c.unit; }
             else if (c.kind == 1) { int n = 1 + r.below(5); for (int i = 0; i < n; i++) c.sizes.push_back(r.coin(30) ? 1 + r.below(8) : 1 + r.below(6000)); g = 512; }
+            g_bounds.clear();
+            if (c.kind == 1) { uint64_t b = 0; for (auto x : c.sizes) { b += x; g_bounds.push_back(b); } }
             else { c.n = 1 + r.below(5); c.st = (uint64_t)1 << r.below(13); c.rows = 1 + r.below(4); g = c.st; }
             uint64_t size = comp_size(c);
             int nops = 3 + r.below(6);
@@ -386,6 +408,7 @@ int main(int argc, char** argv) {
                 random_op(op, idx, cur, g, r.coin(70) ? std::min<uint64_t>(size + 2, 3 * g + 2) : size + 2, false, 4);
                 return true;
             });
+            g_bounds.clear();
         }
     }
     fprintf(stderr, "sequences %llu requests %llu\n", (unsigned long long)n_seq, (unsigned long long)n_ops);
